@@ -70,6 +70,8 @@ def run_shard(spec, shard):
         case = {"q": text, "ast": ast, "doc": doc}
         if r.random() < 0.2:
             case["exotic"] = r.randrange(1, 2**31)
+        elif r.random() < 0.3:
+            case["nondet"] = True
         e = ev.Evaluator()
         e.filter_stats = []
         res_nodes = e.query(ast, doc)
@@ -123,6 +125,8 @@ def run_shard(spec, shard):
             case["ambient"] = r.choice(lib.AMBIENTS[1:])
         if r.random() < 0.08:
             case["interrupted"] = r.randint(1, 90)
+        if r.random() < 0.08 and not any(k_ in case for k_ in ("interrupted", "ambient")):
+            case["nondet"] = True
         e = ev.Evaluator()
         e.filter_stats = []
         res = e.query(ast, doc)
@@ -136,7 +140,7 @@ def run_shard(spec, shard):
             classes.add("non-empty")
         if Q.filter_depth(ast) >= 2:
             classes.add("nested-filter")
-        for k_ in ("interrupted", "ambient", "alias", "exotic"):
+        for k_ in ("interrupted", "ambient", "alias", "exotic", "nondet"):
             if k_ in case:
                 classes.add("variant:" + (k_ if k_ != "interrupted" else "first-application-interrupted-then-reapplied"))
         shard.case(key=(text, doc), nontrivial=nt, classes=classes, sample={"q": text, "doc": doc, "selected": len(res)})
